@@ -80,6 +80,7 @@ class Hub:
         self.q = queue.Queue()
         self.thread = None
         self.stop = False
+        self.hold, self.held = None, None       # "armed": keep back the next frame of a non-client net
         if mode == "thread":
             self.thread = threading.Thread(target=self.pump, daemon=True)
             self.thread.start()
@@ -87,9 +88,20 @@ class Hub:
     def route(self, src, can_id, data):
         self.frames.append((can_id, data))
         if self.mode == "inline":
+            was_holding = self.hold == "holding"
+            if self.hold == "armed" and src is not self.nets[0]:
+                self.hold, self.held = "holding", (src, can_id, data)
+                return
             for n in self.nets:
                 if n is not src:
                     n.notify(can_id, bytearray(data), 0.0)
+            if was_holding and self.hold == "holding" and src is self.nets[0]:
+                # the late frame arrives right after the client's next frame (its time-out abort)
+                hsrc, hid, hdata = self.held
+                self.hold, self.held = None, None
+                for n in self.nets:
+                    if n is not hsrc:
+                        n.notify(hid, bytearray(hdata), 0.0)
         else:
             self.q.put((src, can_id, data, self.rng.random() * 0.0005 if self.rng else 0))
 
@@ -148,9 +160,21 @@ def accessor(node, idx, sub, entries, path):
 
 def run_typed(entries, idx, sub, t, val, delivery, rng=None, vchan="c03"):
     mode, path = delivery.split("-")
-    remote, local, closer = make_pair(entries, 5, mode=mode, rng=rng, vchan=vchan)
+    late = mode == "late"
+    hub = Hub("inline") if late else None
+    remote, local, closer = make_pair(entries, 5, hub=hub, mode="inline" if late else mode, rng=rng, vchan=vchan)
     try:
         tt = None if t == "n" else int(t)
+        if late:
+            # history: an earlier read whose response came only after the client had given up
+            hub.hold = "armed"
+            remote.sdo.RESPONSE_TIMEOUT = 0.001
+            try:
+                accessor(remote, idx, sub, entries, path).raw
+            except Exception:
+                pass
+            hub.hold, hub.held = None, None
+            remote.sdo.RESPONSE_TIMEOUT = 2.0
         try:
             accessor(remote, idx, sub, entries, path).raw = c02.py_val(val, tt)
             s1 = "ok"
@@ -432,7 +456,7 @@ def values(t, rng, tier):
     return out
 
 
-DELIVERIES = ["inline-idx", "inline-name", "inline-dot", "thread-idx", "thread-name"]
+DELIVERIES = ["inline-idx", "inline-name", "inline-dot", "thread-idx", "thread-name", "late-idx", "late-name"]
 
 
 def gen_ops(tier, rng):
@@ -451,7 +475,8 @@ def gen_ops(tier, rng):
             entries.append(("v", 0x3000, (0x05, 0, None, ("i", 1))))
             r = rng.random()
             if tier == "quick":
-                delivery = "inline-idx" if r < 0.8 else rng.choice(DELIVERIES[1:3]) if r < 0.97 else rng.choice(DELIVERIES[3:])
+                delivery = ("inline-idx" if r < 0.7 else rng.choice(DELIVERIES[1:3]) if r < 0.87 else
+                            rng.choice(DELIVERIES[5:]) if r < 0.97 else rng.choice(DELIVERIES[3:5]))
             else:
                 delivery = rng.choice(DELIVERIES + (["vcan-idx"] if r < 0.002 else []))
             if kind == "v" and delivery.endswith("dot"):
